@@ -367,15 +367,20 @@ int k_main(int argc, char **argv, k_level *levels, int nlevels) {
 		for (int l = 0; l < nlevels; l++) if (!strcmp(levels[l].name, name)) {
 			if (idx >= levels[l].ncases) { fprintf(stderr, "replay index out of range\n"); return 3; }
 			cur_level = &levels[l]; cur_idx = idx;
-			char p[64] = "/tmp/vp-replay-XXXXXX"; int efd = memfd_create("replay-stderr", 0);
-			int saved = dup(2); (void)p;
-			dup2(efd, 2);
-			levels[l].run(idx);
-			fflush(stderr);
-			static char eb[16384]; ssize_t r = pread(efd, eb, sizeof eb - 1, 0); if (r < 0) r = 0;
-			dup2(saved, 2);
+			int efd = memfd_create("replay-stderr", 0);
+			fflush(NULL);
+			pid_t pr = fork();
+			if (pr == 0) {
+				dup2(efd, 2);
+				levels[l].run(idx);
+				fflush(NULL);
+				_exit(replay_viols ? 1 : 0);
+			}
+			int st = 0; waitpid(pr, &st, 0);
+			static char eb[65536]; ssize_t r = pread(efd, eb, sizeof eb - 1, 0); if (r < 0) r = 0;
 			if (r) fwrite(eb, 1, r, stderr);
-			return replay_viols ? 1 : 0;
+			if (WIFSIGNALED(st)) { fprintf(stderr, "replay: killed by signal %d\n", WTERMSIG(st)); return 128 + WTERMSIG(st); }
+			return WEXITSTATUS(st);
 		}
 		fprintf(stderr, "no such level %s\n", name); return 3;
 	}
